@@ -280,6 +280,20 @@ def rand_prob(rng, names, opts):
         shared = None
     else:
         shared = []
+    if opts.get("overlap") and rng.random() < 0.3:
+        # one name in two roles inside one probability: the subscript value of one variable is another variable of the
+        # same term (P(Y @ -X, X)), or an outcome returns among the conditions in another world (P(Y @ -X | Y))
+        ch = [rand_var(rng, n, dict(opts, multiworld=True), [x for x in picked if x != n] + rest, None) for n in picked[:k]]
+        pa = [rand_var(rng, n, dict(opts, multiworld=True), [x for x in picked if x != n] + rest, None) for n in picked[k:]]
+        if ch and rng.random() < 0.4:
+            twin = rng.choice(ch)
+            other = [twin[0], None, [] if twin[2] else [[rng.choice([x for x in names if x != twin[0]] or [twin[0]]), False]]]
+            if other[2] != twin[2] and all(not (v[0] == other[0] and v[2] == other[2]) for v in pa + ch):
+                pa = pa + [other]
+        pop = None
+        if opts.get("populations") and rng.random() < 0.2:
+            pop = rng.choice(POPS[: opts.get("npops", 3)])
+        return ["P", pop, ch, pa]
     ch = [rand_var(rng, n, opts, rest, shared) for n in picked[:k]]
     pa = [rand_var(rng, n, opts, rest, shared) for n in picked[k:]]
     pop = None
